@@ -193,6 +193,9 @@ func (i *interpreter) foreignCall(fr *frame, fn *ssa.Function, name string, args
 			i.w.stubs["summary:"+name]++
 			return sum(fr, args), true
 		}
+		if interpretable[fn.Pkg.Pkg.Path()] && fn.Blocks != nil {
+			return nil, false // symbolic operands: run the pure-Go body
+		}
 		panic(unsupported{"symbolic argument to native bridge " + name})
 	}
 	if sum := summaries[name]; sum != nil {
